@@ -42,6 +42,12 @@ MUTANTS = [
     ("M51", "port_name.py", "    items.update(set(TCP_NAME_PORT__NXOS))\n", "", "C09"),
     ("M52", "protocol.py", "    \"eigrp\": 88,\n    \"ospf\": 89,\n    \"nos\": 94,\n    \"pim\": 103,\n    \"pcp\": 108,\n}\nPROTOCOLS_NXOS", "    \"eigrp\": 88,\n    \"ospf\": 98,\n    \"nos\": 94,\n    \"pim\": 103,\n    \"pcp\": 108,\n}\nPROTOCOLS_NXOS", "C09"),
     ("M53", "port.py", "        port_name = PortName(protocol=self._protocol, platform=self._platform, version=self.version)\n        data = port_name.ports()", "        port_name = PortName(protocol=self._protocol, platform=\"ios\", version=self.version)\n        data = port_name.ports()", "C09 C02 C06"),
+    ("M60", "ace.py", "        if self._action != other.action:\n            return False\n        if not self._shadow_of__protocol(other):", "        if not self._shadow_of__protocol(other):", "C03 C11 C04"),
+    ("M61", "ace.py", "        if other.protocol.name == \"ip\":\n            return True", "        if other.protocol.name == \"ip\" or self._protocol.name == \"ip\":\n            return True", "C03 C11"),
+    ("M62", "ace.py", "        tops = other.dstaddr.ipnets()\n        bottoms = self._dstaddr.ipnets()", "        tops = other.dstaddr.ipnets()\n        bottoms = self._dstaddr.ipnets()[:1]", "C03 C11"),
+    ("M63", "ace.py", "        if other.srcport.operator:\n            top = set(other.srcport.ports)", "        if other.srcport.ports:\n            top = set(other.srcport.ports)", "C03 C04"),
+    ("M64", "ace.py", "        if \"nc_wildcard\" in skip_:\n            if \"wildcard\" in [self.srcaddr.type, other.srcaddr.type]:", "        elif \"nc_wildcard\" in skip_:\n            if \"wildcard\" in [self.srcaddr.type, other.srcaddr.type]:", "C03 C11"),
+    ("M65", "ace.py", "        if top := set(other.option.flags):\n            if bottom := set(self._option.flags):\n                diff = bottom.intersection(top)\n                return diff == bottom\n            return False", "        if top := set(other.option.flags):\n            if bottom := set(self._option.flags):\n                diff = bottom.intersection(top)\n                return diff == bottom\n            return True", "C03 C11"),
     ("M30", "port.py", "            return [ports[0] - 1] if ports else [65535]", "            return [ports[0]] if ports else [65535]", "C08"),
     ("M31", "port.py", "            return [ports[-1] + 1] if ports else [1]", "            return [ports[1] + 1] if ports else [1]", "C08"),
     ("M32", "port.py", "        ports = sorted(ports)\n        if operator == \"eq\":", "        if operator == \"eq\":", "C08"),
